@@ -243,6 +243,37 @@ def wl_random(ctx, rng, case):
             ctx.check(strat["decorated_bytes_salted"](k, d) == wantb[:d], "hash_with_depth_bytes does not pass index i to round i (round 0 first), or the rounds are not chained on the previous digest",
                       key=k, depth=d)
         ctx.count("decorator_rounds_recomputed")
+    # SIBLING strategies: several strategies built by the decorators from functions that come out of ONE factory (same name, same
+    # module, different behaviour) are alive at once and asked for the same keys in turn: each must equal the chain of its OWN function
+    def make_int(salt):
+        def salted(key, idx=0):
+            return int(hashlib.sha256(gen.to_bytes(key) + salt + b"|%d" % idx).hexdigest()[:16], 16)
+        return salted
+
+    def make_bytes(salt):
+        def salted(key, idx=0):
+            return hashlib.blake2b(gen.to_bytes(key) + salt, digest_size=16).digest()
+        return salted
+
+    sib_int = [(make_int(s), H.hash_with_depth_int(make_int(s))) for s in (b"A", b"B", b"C")]
+    sib_bytes = [(make_bytes(s), H.hash_with_depth_bytes(make_bytes(s))) for s in (b"A", b"B")]
+    lam = [(lambda key, idx=0: 17, H.hash_with_depth_int(lambda key, idx=0: 17)), (lambda key, idx=0: 99, H.hash_with_depth_int(lambda key, idx=0: 99))]
+    for k in keys[:12]:
+        for d in (3, 1, 4):
+            for fn, st in sib_int + lam:
+                want, tmp = [], fn(k, 0)
+                want.append(tmp)
+                for idx in range(1, d):
+                    tmp = fn(f"{tmp:x}", idx)
+                    want.append(tmp)
+                ctx.check(st(k, d) == want, "a decorator-built strategy returns values that are not the chain of ITS OWN function (sibling strategies from one factory alive at once)", key=k, depth=d)
+            for fn, st in sib_bytes:
+                want, tmp = [], gen.to_bytes(k)
+                for idx in range(d):
+                    tmp = fn(tmp, idx)
+                    want.append(int.from_bytes(tmp[:8], "little"))
+                ctx.check(st(k, d) == want, "a bytes-decorator strategy returns values that are not the chain of ITS OWN function (sibling strategies from one factory alive at once)", key=k, depth=d)
+        ctx.count("sibling_strategy_checks")
     # a structure's hashes() equals its strategy at the structure's depth
     hname, hf = gen.pick_hash(rng, keys)
     est, rate, m, kk = gen.bloom_geometry(rng)
